@@ -208,9 +208,13 @@ func solverTimeoutArgs(name string, ms int) []string {
 }
 
 func runSolver(name, script string, timeoutMs int) SolverResult {
+	return runSolverCtx(context.Background(), name, script, timeoutMs)
+}
+
+func runSolverCtx(parent context.Context, name, script string, timeoutMs int) SolverResult {
 	cmdline := append([]string{}, solverCmds[name]...)
 	cmdline = append(cmdline, solverTimeoutArgs(name, timeoutMs)...)
-	ctx, cancel := context.WithTimeout(context.Background(), time.Duration(timeoutMs+3000)*time.Millisecond*4)
+	ctx, cancel := context.WithTimeout(parent, time.Duration(timeoutMs+3000)*time.Millisecond*4)
 	defer cancel()
 	cmd := exec.CommandContext(ctx, cmdline[0], cmdline[1:]...)
 	cmd.Stdin = strings.NewReader(script)
@@ -227,7 +231,15 @@ func runSolver(name, script string, timeoutMs int) SolverResult {
 
 // runBatch runs a script containing many (check-sat) commands and returns one status per check.
 func runBatch(name, script string, perQueryMs int) ([]string, string, float64) {
-	r := runSolver(name, script, perQueryMs)
+	// a batch normally answers in a second or two; a solver that ignores its per-query limit (string theory) is
+	// stopped after 2x that limit (at least 15 s) - what it has not answered by then goes to the individual race
+	d := time.Duration(perQueryMs) * 2 * time.Millisecond
+	if d < 15*time.Second {
+		d = 15 * time.Second
+	}
+	ctx, cancel := context.WithTimeout(context.Background(), d)
+	defer cancel()
+	r := runSolverCtx(ctx, name, script, perQueryMs)
 	var sts []string
 	for _, ln := range strings.Split(r.Output, "\n") {
 		ln = strings.TrimSpace(ln)
@@ -243,11 +255,14 @@ func runBatch(name, script string, perQueryMs int) ([]string, string, float64) {
 func raceSingle(script string, timeoutMs int, solvers []string) []SolverResult {
 	var wg sync.WaitGroup
 	res := make([]SolverResult, len(solvers))
+	// the first definite answer (sat / unsat) ends the race: the other solvers are stopped
+	ctx, cancel := context.WithCancel(context.Background())
+	defer cancel()
 	for i, s := range solvers {
 		wg.Add(1)
 		go func(i int, s string) {
 			defer wg.Done()
-			r := runSolver(s, script, timeoutMs)
+			r := runSolverCtx(ctx, s, script, timeoutMs)
 			first := ""
 			for _, ln := range strings.Split(r.Output, "\n") {
 				ln = strings.TrimSpace(ln)
@@ -258,9 +273,15 @@ func raceSingle(script string, timeoutMs int, solvers []string) []SolverResult {
 			}
 			if first == "" {
 				first = "error"
+				if ctx.Err() != nil {
+					first = "cancelled"
+				}
 			}
 			r.Status = first
 			res[i] = r
+			if first == "sat" || first == "unsat" {
+				cancel()
+			}
 		}(i, s)
 	}
 	wg.Wait()
